@@ -80,6 +80,7 @@ def _enumerate(mod, kind, value_filter=None):
     """Depth-first enumeration of all draw outcomes of <kind>.generate(); yields rows."""
     cls = {"init": mod.InitSequenceStart, "ping": mod.PingSequenceStart, "account": mod.AccountReplySequenceStart}[kind]
     script = []
+    prev = None          # the previously generated start and what it reported: starts must not share state
     while True:
         s = Script(script)
         _install(mod, s)
@@ -97,6 +98,12 @@ def _enumerate(mod, kind, value_filter=None):
             else:
                 seq1 = seq2 = 0
                 fv = mod.AccountReplySequenceStart.from_value(value).value
+            if prev is not None:
+                pobj, pvals = prev
+                now = (pobj.value, getattr(pobj, "seq1", 0), getattr(pobj, "seq2", 0))
+                if now != pvals:
+                    exc = "EarlierStartChanged"      # generating a new start altered one generated before
+            prev = (obj, (value, seq1 if kind != "account" else 0, seq2 if kind != "account" else 0))
         except MachineryError:
             raise
         except Exception as e:          # generation "never fails": any exception is recorded and rejected by the spec
